@@ -7,7 +7,7 @@ from fractions import Fraction
 import common as C
 
 ID = "C05"
-COQ_TARGETS = ["Properties/C05.vo", "GenFacts/ResolutionFacts.vo"]
+COQ_TARGETS = ["Properties/C05.vo", "GenFacts/ResolutionFacts.vo", "GenFacts/CombSrcFacts.vo"]
 EXTRA_OBLIGATIONS = ["resolution_facts_true"]
 MODEL_TARGETS = ["Model/Comb.vo"]
 IMPORTS = "From Ka Require Import Model.Num Model.Comb.\nOpen Scope string_scope.\n"
